@@ -122,6 +122,21 @@ func (c *c20) op(s *c20sess, rec *appencryption.DataRowRecord, recName string, p
 		}
 	case !c.cfg.CacheIK && !c.cfg.CacheSK:
 		c.r.Count("nocache_ops", 1)
+		if rec != nil && c.r != nil {
+			// ... and neither does a call that fails: the same record with one bit of its ciphertext flipped
+			bad := world.CopyDRR(rec)
+			bad.Data[len(bad.Data)/2] ^= 0x10
+			from := c.w.Led.Len()
+			if _, derr := s.s.Decrypt(context.Background(), *bad); derr == nil {
+				c.violate("c20-wrong-plaintext", "a record with a flipped ciphertext bit decrypted without error")
+			}
+			for _, sr := range c.w.Led.RecsFrom(from) {
+				if sr.Open() {
+					c.violate("c20-nocache-retains-secret", "caching disabled but %s is still open after a decrypt that failed (damaged record) returned", sr)
+				}
+			}
+			c.r.Count("nocache_failed_decrypts", 1)
+		}
 		if readsOfIK == 0 {
 			c.violate("c20-nocache-without-load", "caching disabled but %s performed no read of the key's record", kind)
 		}
@@ -185,6 +200,12 @@ func TestC20(t *testing.T) {
 	c = base
 	c.CacheIK, c.CacheSK, c.SharedIK, c.IKCap = false, false, true, 100
 	cfgs = append(cfgs, namedCfg{"no-cache+shared-ik-option", c})
+
+	// WithNoCache together with WithSessionCache: sessions are cached, keys are not
+	c = base
+	c.CacheIK, c.CacheSK = false, false
+	c.SessCache, c.SessCap, c.SessDur = true, 100, 10000*time.Hour
+	cfgs = append(cfgs, namedCfg{"no-cache+session-cache", c})
 
 	// caching switched off for one key type only
 	c = base
